@@ -62,7 +62,7 @@ def candidate_pool():
     pool = [
         True, False,
         4, 0, 7, -1,
-        2.5, 0.125, 480.0,
+        2.5, 0.1234567, 480.0, 0.125, 86400.75,
         'abc', 'two words', 'k=v;x:y', '', '+%Y-%m',
         'none', 'double-quote', 'bash', 'Never', 'IfNotPresent', 'burstable', 'besteffort',
         '4Gi', '512Mi', 'lsf', 'kubernetes', 'docker', 'simulator', 'envone',
@@ -235,6 +235,34 @@ STATUS_ENTRIES = [
     {'executable': 'p', 'references': []},
     {'stage-weight': 0.3333, 'executable': 'p', 'arguments': ''},
 ]
+
+
+# stage-weight vectors that add up to one (anything else is replaced by FlowIR before it is written) and need
+# 1..7 decimal digits; 'MISSING' = the stage has no status entry (FlowIR then injects its default weights, which for a
+# stage count that does not divide 1000 are 3-decimal numbers such as 0.333/0.333/0.334 or 0.142 x 6 + 0.148)
+STATUS_WEIGHT_VECTORS = [
+    (0.5, 0.5), (0.1, 0.9), (0.7, 0.3), (0.25, 0.75), (0.05, 0.95), (0.125, 0.875), (0.333, 0.667), (0.3333, 0.6667),
+    (0.001, 0.999), (0.1234567, 0.8765433), (1.0 / 3, 2.0 / 3), (1.0, 0.0), (0.0, 1.0), (1, 0),
+    (0.125, 0.125, 0.75), (0.333, 0.333, 0.334), (0.2, 0.3, 0.5), (0.01, 0.04, 0.95), (1.0 / 3, 1.0 / 3, 1.0 / 3),
+    (0.0005, 0.9990, 0.0005), (0.1, 0.2, 0.3, 0.4), (0.0625, 0.0625, 0.125, 0.75),
+    ('MISSING', 'MISSING'), ('MISSING', 'MISSING', 'MISSING'), ('MISSING',) * 4, ('MISSING',) * 6, ('MISSING',) * 7,
+    ('MISSING',) * 8, ('MISSING', 1.0), (0.125, 'MISSING', 0.875),
+]
+
+
+def status_weights_doc(weights, with_executable=False):
+    """a workflow with len(weights) stages (one component per stage from stage 2 on)"""
+    doc = base_doc()
+    for stage in range(2, len(weights)):
+        doc['components'].append({'name': 'S%d' % stage, 'stage': stage, 'command': {'executable': 'true'}})
+    st = {}
+    for i, w in enumerate(weights):
+        if w != 'MISSING':
+            st[i] = {'stage-weight': w}
+            if with_executable:
+                st[i].update({'executable': 'progress.sh', 'arguments': '-s %d' % i})
+    doc['status-report'] = st
+    return doc
 
 
 def status_doc(e0, e1):
